@@ -240,7 +240,7 @@ Lemma set_vring_num_spec s q n :
   end.
 Proof.
   unfold h_set_vring_num. destruct (get_ring s q) as [r|] eqn:Hr; [|split; auto].
-  destruct ((n =? 0) || (d_maxq s <? n) || negb (is_pow2 n)) eqn:E.
+  unfold num_bad. destruct ((n =? 0) || (d_maxq s <? n) || negb (is_pow2 n)) eqn:E.
   - split; [reflexivity|]. right. destruct (is_pow2 n); cbn in E; [lia|auto].
   - destruct (is_pow2 n) eqn:Hp; [|cbn in E; lia].
     split; [eauto|]. split; [lia|]. split; [lia|]. split; [reflexivity|]. split.
@@ -367,3 +367,8 @@ Definition va_shape_ok : bool :=
   end.
 Lemma va_shape_ok_true : va_shape_ok = true.
 Proof. vm_compute. reflexivity. Qed.
+
+(* the size test of set_vring_num regenerated from handler.rs: refused exactly for 0, sizes above the maximum, and sizes
+   that are not a power of two *)
+Lemma num_bad_spec n mx : num_bad n mx = false <-> (n <> 0 /\ n <= mx /\ popcount n = 1).
+Proof. unfold num_bad, is_pow2. lia. Qed.
